@@ -659,3 +659,60 @@ def rule_dedup_unknown(db: ProgramDB) -> List[Instance]:
     if n == 0:
         raise AnalysisError("no _required_variables_from_child_ implementation admits when_true=None")
     return out
+
+
+# ---------------------------------------------------------------------------------- DEDUP-CONCLUSIONS
+def rule_dedup_conclusions(db: ProgramDB) -> List[Instance]:
+    """An else-if tries its right side for the rows on which its left side failed; in a rule tree that right side is an
+    alternative branch with conclusions of its own.  Wherever an implementation of the duplicate-suppression key adds the
+    right operand's variables for a failed (or not yet decided) row of the left side, it also adds the variables the right
+    operand CONCLUDES on: two failed rows that differ only there lead to two different conclusions."""
+    from ..abseval import AbsEval, State, NONE, TRUE, FALSE
+    from ..cfg import CFG
+    out = []
+    se = db.cls("SymbolicExpression")
+    n = 0
+    for c in sorted(se.all_subclasses(), key=lambda k: k.qualname):
+        m = c.methods.get("_required_variables_from_child_")
+        if m is None or "when_true" not in m.params or not c.is_subclass_of("BinaryOperator"):
+            continue
+        cfg = CFG(m)
+
+        def attr_hook(e, st, ev):
+            if isinstance(e, ast.Attribute) and isinstance(e.value, ast.Name) and e.value.id == "self":
+                if e.attr == "_parent_":
+                    return ("obj", "truthy")
+                if e.attr in ("left", "right"):
+                    return ("obj", "#" + e.attr)
+            return None
+        child_param = m.positional_params[1]
+
+        def adds_right_vars(nd) -> bool:
+            return nd.ast is not None and nd.kind == "stmt" and any(
+                isinstance(x, ast.Call) and call_attr(x) in ("update", "add") and x.args and unparse(x.args[0]) == "self.right._unique_variables_"
+                for x in ast.walk(nd.ast))
+
+        def loops_right_conclusions(nd) -> bool:
+            return nd.kind == "for" and unparse(nd.stmt.iter) == "self.right._conclusion_" and any(
+                isinstance(x, ast.Call) and call_attr(x) in ("update", "add") for st in nd.stmt.body for x in ast.walk(st))
+        for label, tok in (("False", FALSE), ("None", NONE)):
+            ev = AbsEval(db, m, cfg, attr_hook=attr_hook)
+            IN = ev.run(State({"when_true": tok, child_param: ("obj", "#left")}), kinds=("n",))
+            reach = [cfg.nodes[i] for i, sts in IN.items() if sts]
+            if not any(adds_right_vars(nd) for nd in reach):
+                continue          # this implementation does not try its right side for such a row
+            # only the else-if family: the right side is tried because the left side FAILED (not added for a true row)
+            ev_t = AbsEval(db, m, cfg, attr_hook=attr_hook)
+            IN_t = ev_t.run(State({"when_true": TRUE, child_param: ("obj", "#left")}), kinds=("n",))
+            if any(adds_right_vars(cfg.nodes[i]) for i, sts in IN_t.items() if sts):
+                continue
+            n += 1
+            ok = any(loops_right_conclusions(nd) for nd in reach)
+            out.append(inst("DEDUP-CONCLUSIONS", HOLDS if ok else VIOLATION, m, f"{m.short}[failed rows of self.left, when_true={label}]",
+                            "keyed by what the right side tests and by what it concludes on" if ok else
+                            "the failed rows of the left side are keyed by the variables the right side tests but not by those its "
+                            "conclusions use: an alternative that concludes on a variable its condition does not mention fires for the "
+                            "first failed assignment only (the others are suppressed as duplicates before it sees them)"))
+    if n == 0:
+        raise AnalysisError("no else-if style implementation of _required_variables_from_child_ found")
+    return out
